@@ -19,7 +19,7 @@ PROPS = {p: net(p) for p in ["C07", "C08", "C09", "C10", "C11", "C12", "C13", "C
 
 
 PLAN_COMPONENTS = {"real": ["riddle lexer/parser", "core (types, items, constructors, predicates)", "solver (graph h_1, flaws, resolvers, smart types)", "smt (sat_core, LRA, IDL, RDL, OV)"],
-                   "stub": [], "reference": ["own exact evaluator of the generated AST (GMP rationals + epsilon)", "z3 on the constraint-only fragment for negative verdicts", "C02: the same problem in five equivalent formulations (constraints reordered, tautology added, dead disjunct added, goal/fact statements reversed, a fact stated twice) read by a fresh solver"]}
+                   "stub": [], "reference": ["own exact evaluator of the generated AST (GMP rationals + epsilon)", "z3 on the constraint-only fragment for negative verdicts", "C02: the same problem in five equivalent formulations (constraints reordered, tautology added, dead disjunct added, goal/fact statements reversed, a fact stated twice) and one relaxation read by a fresh solver; a block solvable by construction (unification only) read alone"]}
 PLAN_RULE = ("a run = one generated RIDDLE problem (integer ops -> own AST -> text) delivered as a history of read()/solve()/pop-to-root calls under one seeded heap layout and heap fill "
              "(layout 0 = LIFO, others = seeded slot choice; each problem runs under K layouts); non-trivial = the planner created at least one flaw with >= 2 resolvers; "
              "distinct = distinct hash of (program text of all units, layout)")
